@@ -68,33 +68,7 @@ def check_islands(L, m, d):
     efc_type = d.arena("efc_type")[:nefc].astype(np.int64) if nefc else np.zeros(0, dtype=np.int64)
     efc_id = d.arena("efc_id")[:nefc].astype(np.int64) if nefc else np.zeros(0, dtype=np.int64)
     body_tree = m["body_treeid"].astype(np.int64)
-    # structural incidence of contacts / connect / weld: the two bodies (documentation: "an edge is a constraint
-    # between two bodies belonging to different trees")
-    con = d.contacts() if nefc else None
-    contact_types = (E.mjCNSTR_CONTACT_FRICTIONLESS, E.mjCNSTR_CONTACT_PYRAMIDAL, E.mjCNSTR_CONTACT_ELLIPTIC)
-    rt_may = []
-    for r in range(nefc):
-        s = set(int(x) for x in rt_str[r])
-        t, i = efc_type[r], efc_id[r]
-        if t in contact_types:
-            g = con["geom"][i]
-            if g[0] >= 0 and g[1] >= 0:
-                for gg in g:
-                    tb = body_tree[m["geom_bodyid"][gg]]
-                    if tb >= 0:
-                        s.add(int(tb))
-        elif t == E.mjCNSTR_EQUALITY and m["eq_type"][i] in (E.mjEQ_CONNECT, E.mjEQ_WELD):
-            b1, b2 = int(m["eq_obj1id"][i]), int(m["eq_obj2id"][i])
-            if m["eq_objtype"][i] == E.mjOBJ_SITE:
-                b1, b2 = int(m["site_bodyid"][b1]), int(m["site_bodyid"][b2])
-            for b in (b1, b2):
-                if body_tree[b] >= 0:
-                    s.add(int(body_tree[b]))
-        elif t in (E.mjCNSTR_FRICTION_DOF,):
-            s.add(int(dof_tree[i]))
-        elif t == E.mjCNSTR_LIMIT_JOINT:
-            s.add(int(dof_tree[m["jnt_dofadr"][i]]))
-        rt_may.append(sorted(s))
+    rt_may = ref.may_groups(m, d, S, E)      # structural incidence (upper bound of the coupling)
     # flex stiffness coupling
     flex_groups = []
     nflex = m.n("nflex")
@@ -275,6 +249,8 @@ def _options(rng, m, c):
         if o["integrator"] == "mjINT_RK4":
             o["integrator"] = "mjINT_EULER"
     common.apply_options(m, o)
+    if c.get("disable_islands"):
+        m.opt["disableflags"] = int(m.opt["disableflags"]) | E.mjDSBL_ISLAND     # crash triage re-run
     return o
 
 
@@ -342,7 +318,11 @@ def worker(c):
                 # the engine's own SHOULD-NOT-OCCUR consistency checks inside island discovery fired
                 w = dict(witness)
                 w.update({"observation": k, "events": events[-6:], "error": str(e)[:300]})
-                P.violation("engine-reported-island-inconsistency", w)
+                if "between two static bodies" in str(e):
+                    # known finding C17-static-static-contact-dense-abort (out/findings)
+                    P.violation("island-discovery-aborts:constraint-between-two-static-bodies", w)
+                else:
+                    P.violation("engine-reported-island-inconsistency", w)
                 break
             P.count("engine_error_skipped")
             P.count("engine_error:" + str(e).split(":")[0][:40])
@@ -490,8 +470,15 @@ def _merge(ctx, cs, res, asan=False):
             ctx.count("worker_crash")
             if asan and "AddressSanitizer" in r["crash"]:
                 ctx.violation("pipeline:sanitizer-report", {"case": c, "stderr": r["crash"][-3000:]})
+            elif not asan and "crash" in (par.run("vf.props.c17", "worker", [dict(c, disable_islands=True)], nproc=1, timeout=900)[0] or {}):
+                # the same history crashes with island discovery disabled: not attributable to this property
+                ctx.count("skipped_crash_also_with_islands_disabled")
+                ctx.extra.setdefault("crashes_unrelated_to_islands", []).append({"case": c, "rc": r.get("rc")})
+            elif not asan:
+                ctx.violation("crash-only-with-islands-enabled", {"case": c, "rc": r.get("rc"), "stderr": r["crash"][-1500:]})
             else:
-                ctx.inconclusive("worker crashed: " + r["crash"][-300:])
+                ctx.inconclusive("worker crashed (rc=%s, %s%s): %s" % (r.get("rc"), c.get("path") or "gen:%s" % c.get("mseed"),
+                                                                     ", asan" if asan else "", r["crash"][-300:]))
         elif "exception" in r:
             ctx.count("harness_exception")
             ctx.inconclusive("harness exception in worker: " + r["exception"] + r.get("trace", "")[-600:])
@@ -525,4 +512,5 @@ def replay(ctx, path):
     else:
         c = det["case"]
         ctx.merge(worker(c))
-    ctx.min_nontrivial = 1
+        ctx.case(key="replay-pipeline", sample={"case": c})
+    ctx.min_nontrivial = 0
